@@ -470,7 +470,19 @@ func (t *tr) loopBody(stmts []ast.Stmt) []ast.Stmt {
 	var body []ast.Stmt
 	var others []string
 	found := 0
+	// [group Tb] begin
+	tail := false // a last entry `…` of `around` (after at least one other entry) stands for all the statements after the loop
+	// [group Tb] end
 	for _, st := range stmts {
+		// [group Tb] begin
+		if n := len(t.s.around); found == 1 && n > 1 && t.s.around[n-1] == "…" {
+			if !tail {
+				others = append(others, "…")
+				tail = true
+			}
+			continue
+		}
+		// [group Tb] end
 		var b *ast.BlockStmt
 		switch x := st.(type) {
 		case *ast.RangeStmt:
@@ -528,6 +540,7 @@ func findFunc(root string, s *spec) *ast.FuncDecl {
 	if err != nil {
 		return nil
 	}
+	stripNewFieldWrites(af, root, s.file) // [newfields] writes to fields that did not exist when the model was validated
 	for _, d := range af.Decls {
 		fd, ok := d.(*ast.FuncDecl)
 		if !ok || fd.Name.Name != s.name {
@@ -1273,9 +1286,17 @@ func main() {
 	if len(os.Args) > 2 {
 		out = os.Args[2]
 	}
+	if len(os.Args) > 2 && os.Args[1] == "-fields" { // [newfields] record the struct fields of the modelled packages
+		printFields(os.Args[2])
+		return
+	}
 	for _, group := range []string{"", "Flow", "SM", "Glue", "Reg"} {
 		writeGroup(root, out, group)
 	}
+	// [group Tb] begin
+	writeGroup(root, out, "Tb")
+	// [group Tb] end
+	reportIgnored(out) // [newfields]
 }
 
 func writeGroup(root, out, group string) {
